@@ -137,7 +137,10 @@ def st_enum_spec(draw):
     if base in ("IntEnum", "int_Enum"):
         pool = st.sampled_from([0, 1, 2, 3, -1, 10, 255, 2 ** 40])
     elif base in ("StrEnum", "str_Enum"):
-        pool = st.sampled_from(["a", "b", "A", "", "x y", "1", "True", "none", "é"])
+        # values that coincide with (other) member names: `map` keys may be names or members, and a str-mixin member
+        # is equal to its value
+        pool = st.one_of(st.sampled_from(["a", "b", "A", "", "x y", "1", "True", "none", "é"]), st.sampled_from(names),
+                         st.sampled_from(NAMES[:8]))
     else:
         pool = st.one_of(
             st.sampled_from([0, 1, 2, "a", "b", "1", None, True, False, 1.5, ("dec", "1.5"), ("dec", "1")]),
@@ -208,7 +211,7 @@ def st_case(draw):
         prov["name_style"] = draw(st_style())
         nmap = {}
         if draw(st.booleans()):
-            for n in draw(st.lists(st.sampled_from(names), max_size=2, unique=True)):
+            for n in draw(st.lists(st.sampled_from(names), min_size=1, max_size=3, unique=True)):
                 nmap[n] = [draw(st.sampled_from(["name", "member"])),
                            draw(st.sampled_from(["m1", "m2", "m 3", "", "A", "B"]))]
         prov["map"] = nmap
@@ -261,6 +264,10 @@ def mapped_names(cls, prov, members):
     return res
 
 
+class MapKeysCollide(Exception):
+    pass
+
+
 def make_provider(cls, prov):
     k = prov["kind"]
     if k == "exact":
@@ -272,6 +279,10 @@ def make_provider(cls, prov):
         nmap = {}
         for name, (how, target) in prov.get("map", {}).items():
             nmap[cls[name] if how == "member" else name] = target
+        if len(nmap) != len(prov.get("map", {})):
+            # a str-mixin member equals its value: a member key and a string key of the user's dict collapsed into one
+            # entry before adaptix ever sees the mapping -- not a configuration adaptix can honour
+            raise MapKeysCollide
         if k == "by_name":
             return enum_by_name(cls, name_style=style, map=nmap or None)
         return flag_by_member_names(
@@ -377,7 +388,12 @@ def check_case(ctx: runner.Ctx, case):  # noqa: C901, PLR0912, PLR0915
         documented_exclusion = mask < 0 or mask != 2 ** mask.bit_length() - 1
         if documented_exclusion:
             feats.append("excluded_by_docs")
-    retort = Retort(recipe=[p for p in [make_provider(cls, prov)] if p is not None],
+    try:
+        the_provider = make_provider(cls, prov)
+    except MapKeysCollide:
+        ctx.count("skipped_user_map_dict_keys_collide")
+        return
+    retort = Retort(recipe=[p for p in [the_provider] if p is not None],
                     strict_coercion=case["strict"], debug_trail=DEBUG[case["debug"]])
     created = {}
     for what in ("loader", "dumper"):
